@@ -242,3 +242,43 @@ class _GetMessageEmpty:
 
     def when_blocked(self):
         return self.lock.st["held"] == False and self.postprocess_recv_messages_lock.st["held"] == False
+
+
+# ------------------------------------------------------------------ the logging helpers on the inbound path are total
+#  They run inside the receive worker / the state machine tick with the association lock held: an exception while
+#  FORMATTING a log line (the f-string is evaluated whether or not debug logging is on) would end that thread.
+from bromelia.avps.ietf.rfc6733 import UserNameAVP                    # noqa: E402
+import bromelia.statemachine as _SM                                   # noqa: E402
+import bromelia.bromelia as _BB                                       # noqa: E402
+
+
+def _msg_with_user_name(with_user):
+    items, alias = [], {}
+    if with_user:
+        items.append(T.Obj(UserNameAVP, slots={"_flags": T.Bytes(1), "_data": T.Bytes(maxlen=64), "_vendor_id": T.NoneS,
+                                               "_padding": T.NoneS},
+                           idict={"code": T.Const(UserNameAVP.code), "vendor_id": T.NoneS}))
+        alias["user_name_avp"] = ("_avps", 0)
+    from contracts.common import header_shape
+    return T.Obj(B.DiameterMessage, idict={"_header": header_shape(), "_avps": T.ListOf(*items), "_loaded": T.Const(True)},
+                 alias=alias)
+
+
+def _logging_total(target, prop, also, extra_args):
+    for with_user in (True, False):
+        @contract(target, prop=prop, name="total-%s" % ("user-name" if with_user else "plain"), also=also)
+        class _L:
+            """formatting the debug line never raises, whatever the message holds (User-Name data: ANY octets -- the
+            decoder accepts them -- any header)"""
+            args = dict({"msg": _msg_with_user_name(with_user)}, **extra_args)
+
+            def ensures_returns_nothing(result):
+                return result is None
+
+            def exceptional(exc):
+                return False
+
+
+_logging_total("bromelia.setup.make_logging", "C04", ("C03",), {"disable_else": T.Bool()})
+_logging_total("bromelia.statemachine.make_logging", "C06", ("C03",), {})
+_logging_total("bromelia.bromelia.make_logging", "C13", ("C03",), {})
